@@ -624,24 +624,50 @@ def o_C11(h):
 def o_C16(h):
     return [V("C16", "use of internal bookkeeping memory after it was freed, or a double / invalid free", s, h) for s in h.bad_steps[:1]]
 
+def token_owners(h):
+    """step -> {agent: token} for live handles (a handle owns its token until its drop/unsubscribe returns)"""
+    own = {0: "0", 1: "1"}
+    by_step = {}
+    callat = {}
+    for c in h.calls:
+        callat.setdefault(c.start, []).append(c)
+    cur = {}
+    for st in h.steps:
+        for c in callat.get(st.no, []):
+            cur[c.agent] = c
+        c = cur.get(st.agent)
+        for ev in st.evs:
+            if ev.startswith("alloc:t") and c is not None:
+                t = ev[7:]
+                if c.name in ("clone", "addstream") and c.arg is not None:
+                    own[int(c.arg)] = t
+                elif c.name in ("intosingle", "intomulti", "transform"):
+                    own[c.agent] = t
+        if c is not None and c.end == st.no and c.name in ("drop", "unsub"):
+            own.pop(c.agent, None)
+        by_step[st.no] = dict(own)
+    return by_step
+
 def o_C17(h):
     out = []
-    live = set()
-    peak_excess = 0
+    owners = token_owners(h)
+    backlog = 0     # retired objects that piled up while a live handle had not yet acknowledged the epoch
     for st in h.steps:
-        for ev in st.evs:
-            if ev.startswith("alloc:"):
-                live.add(ev[6:])
-            elif ev.startswith("dealloc:"):
-                live.discard(ev[8:])
         sn = st.snap
         if sn is not None and not sn.torn:
-            # what a queue with this population legitimately holds: ring(2) + group + 2 per stream + 1 per handle
-            # + retired objects waiting for the next cycle
-            base = 3 + 2 * len(sn.sids) + len(sn.tokens)
             retired = len(sn.tofree) + len(sn.wtf)
-            if retired > 21 + 21 + 6 * (len(sn.tokens) + 2):
-                out.append(V("C17", "%d retired internal objects are waiting to be freed (the queue holds %d streams, %d handles): memory grows with churn" % (retired, len(sn.sids), len(sn.tokens)), st.no, h))
+            ep = {}
+            for t in sn.tokens:
+                k, e = t.split(":")
+                ep[k] = int(e, 16)
+            own = owners.get(st.no, {})
+            # a live handle whose announcement is behind the epoch legitimately holds reclamation back
+            # (it has not operated since the bump); a token that belongs to no live handle does not
+            excused = any(ep.get(t) is not None and ep[t] != sn.epoch for t in own.values())
+            if excused:
+                backlog = max(backlog, retired)
+            elif retired > backlog + 21 + 21 + 6 * (len(sn.tokens) + 2):
+                out.append(V("C17", "%d retired internal objects are waiting to be freed although every live handle has acknowledged the current epoch (the queue holds %d streams, %d handles): memory grows with churn" % (retired, len(sn.sids), len(sn.tokens)), st.no, h))
                 return out
     if h.end.get("torn") == "1":
         lv = h.end.get("live", "")
@@ -711,11 +737,44 @@ def o_C18(h):
     return out
 
 def o_C10(h):
+    """a new stream starts at a position its parent held at some instant during the add_stream call
+    (the parent's position at the call when the caller is the parent's only handle), and is registered there"""
     out = []
-    # the start position is the parent's cursor at some instant during the call
-    for ns, raw in h.stream_start.items():
-        if ns == 0:
+    track_population(h)
+    snaps = [(st.no, st.snap) for st in h.steps if st.snap is not None and not st.snap.torn]
+    for c in h.calls:
+        if c.name not in ("addstream", "intomulti", "transform"):
             continue
+        ns = h.new_stream_of_call.get(id(c))
+        if ns is None or ns not in h.stream_start:
+            continue
+        raw, parent = h.stream_start[ns], h.stream_parent.get(ns)
+        pub = [stno for (stno, k, l, a_, b_, r, o_) in c.ops if k == "pcas" and l == "readers" and o_ == "1"]
+        if not pub:
+            continue
+        pub = pub[-1]
+        seen, at_call = set(), None
+        for (no, sn) in snaps:
+            if no > pub:
+                break
+            if parent in sn.sids:
+                v = sn.poss[sn.sids.index(parent)]
+                if no < c.start:
+                    at_call = v; seen = {v}
+                else:
+                    seen.add(v)
+        if at_call is None and parent == 0 and c.start <= 2:
+            at_call = 0; seen.add(0)
+        if seen and raw not in seen:
+            out.append(V("C10", "stream %s starts at %d, a position its parent %s never held during the call (held %s)" % (ns, raw, parent, sorted(seen)), pub, h))
+        _, hs, _, _ = handles_at(h, c.start)
+        if hs.get(parent, 0) == 1 and at_call is not None and raw != at_call:
+            out.append(V("C10", "stream %s starts at %d but its parent %s (sole handle) was at %d when add_stream was called" % (ns, raw, parent, at_call), pub, h))
+        for (no, sn) in snaps:
+            if no == pub and ns in sn.sids:
+                v = sn.poss[sn.sids.index(ns)]
+                if v != raw:
+                    out.append(V("C10", "stream %s was registered at %d although the parent position read was %d" % (ns, v, raw), pub, h))
     return out
 
 def o_bad(h):
